@@ -139,6 +139,9 @@ def Conforms (G : Int → List Entry) (X : List Entry) : Prop :=
 
 def TermsNonneg (X : List Entry) : Prop := ∀ e ∈ X, 0 ≤ e.term
 
+def TermsSorted (X : List Entry) : Prop :=
+  ∀ (i j : Nat) (a b : Entry), i ≤ j → X[i]? = some a → X[j]? = some b → a.term ≤ b.term
+
 theorem headOf_nil : headOf [] = (-1, -1) := rfl
 
 theorem headOf_ne_nil (X : List Entry) (h : X ≠ []) :
@@ -151,6 +154,15 @@ theorem headOf_ne_nil (X : List Entry) (h : X ≠ []) :
     rw [List.getLast?_eq_getElem?] at hl
     exact hl
 
+theorem conforms_take {G : Int → List Entry} {X : List Entry} (h : Conforms G X) (m : Nat) : Conforms G (X.take m) := by
+  intro i e he
+  rw [List.getElem?_take] at he
+  by_cases him : i < m
+  · rw [if_pos him] at he
+    rw [List.take_take, Nat.min_eq_left (by omega)]
+    exact h i e he
+  · rw [if_neg him] at he; cases he
+
 /-- a log that conforms and ends with an entry of term `t` is a prefix of `G t` -/
 theorem conforms_last {G : Int → List Entry} {X : List Entry} (hc : Conforms G X) (e : Entry)
     (he : X[X.length - 1]? = some e) (hne : X ≠ []) : X = (G e.term).take X.length := by
@@ -161,17 +173,75 @@ theorem conforms_last {G : Int → List Entry} {X : List Entry} (hc : Conforms G
   rw [hl] at this
   simpa using this
 
+theorem lastLE_spec (t : Int) : ∀ (L : List Entry) (i : Nat) (acc : Int × Int),
+    lastLE L t i acc = acc ∨
+    ∃ (k : Nat) (e : Entry), lastLE L t i acc = (e.term, ((i + k : Nat) : Int)) ∧ L[k]? = some e ∧ e.term ≤ t := by
+  intro L
+  induction L with
+  | nil => intro i acc; exact .inl rfl
+  | cons a es ih =>
+    intro i acc
+    unfold lastLE
+    rcases ih (i + 1) (if a.term ≤ t then (a.term, (i : Int)) else acc) with h | ⟨k, e, h1, h2, h3⟩
+    · rw [h]
+      by_cases ha : a.term ≤ t
+      · rw [if_pos ha]; exact .inr ⟨0, a, by simp, by simp, ha⟩
+      · rw [if_neg ha]; exact .inl rfl
+    · right
+      refine ⟨k + 1, e, ?_, by simpa using h2, h3⟩
+      rw [h1]
+      have : i + 1 + k = i + (k + 1) := by omega
+      rw [this]
+
 theorem highestOfTerm_spec (L : List Entry) (t : Int) :
     highestOfTerm L t = (-1, -1) ∨
     ∃ (k : Nat) (e : Entry), highestOfTerm L t = (e.term, (k : Int)) ∧ L[k]? = some e ∧ e.term ≤ t := by
   unfold highestOfTerm
-  cases hl : (L.zipIdx.filter (fun p => decide (p.1.term ≤ t))).getLast? with
-  | none => exact .inl rfl
-  | some p =>
-    right
-    have hm := List.mem_of_getLast? hl
-    simp only [List.mem_filter, decide_eq_true_eq] at hm
-    exact ⟨p.2, p.1, rfl, List.mem_zipIdx_iff_getElem?.1 hm.1, hm.2⟩
+  rcases lastLE_spec t L 0 (-1, -1) with h | ⟨k, e, h1, h2, h3⟩
+  · exact .inl h
+  · exact .inr ⟨k, e, by rw [h1]; simp, h2, h3⟩
+
+theorem lastLE_mono (t : Int) : ∀ (L : List Entry) (i : Nat) (acc : Int × Int), acc.2 ≤ (i : Int) →
+    acc.2 ≤ (lastLE L t i acc).2 := by
+  intro L
+  induction L with
+  | nil => intro i acc _; exact Int.le_refl _
+  | cons a es ih =>
+    intro i acc hacc
+    unfold lastLE
+    by_cases ha : a.term ≤ t
+    · rw [if_pos ha]
+      have := ih (i + 1) (a.term, (i : Int)) (by simp; omega)
+      simp only [] at this
+      omega
+    · rw [if_neg ha]
+      exact ih (i + 1) acc (by omega)
+
+/-- the scan answers with an offset at or above every entry whose term is at most `t` -/
+theorem lastLE_ge (t : Int) : ∀ (L : List Entry) (i : Nat) (acc : Int × Int) (o : Nat) (e : Entry),
+    L[o]? = some e → e.term ≤ t → ((i + o : Nat) : Int) ≤ (lastLE L t i acc).2 := by
+  intro L
+  induction L with
+  | nil => intro i acc o e h; simp at h
+  | cons a es ih =>
+    intro i acc o e h he
+    unfold lastLE
+    cases o with
+    | zero =>
+      simp at h; subst h
+      rw [if_pos he]
+      have := lastLE_mono t es (i + 1) (a.term, (i : Int)) (by simp; omega)
+      simpa using this
+    | succ o =>
+      have h' : es[o]? = some e := by simpa using h
+      have := ih (i + 1) (if a.term ≤ t then (a.term, (i : Int)) else acc) o e h' he
+      have h2 : i + 1 + o = i + (o + 1) := by omega
+      rw [h2] at this; exact this
+
+theorem highestOfTerm_ge (L : List Entry) (t : Int) (o : Nat) (e : Entry) (h : L[o]? = some e) (he : e.term ≤ t) :
+    (o : Int) ≤ (highestOfTerm L t).2 := by
+  have := lastLE_ge t L 0 (-1, -1) o e h he
+  simpa [highestOfTerm] using this
 
 /-- prefix of a prefix -/
 theorem take_of_both (G X Y : List Entry) (n m : Nat) (hx : X = G.take n) (hy : Y.take m = G.take m) (hnm : n ≤ m) :
@@ -220,24 +290,27 @@ theorem attachOk_truncate (F L : List Entry) (k : Int)
 theorem attachOk_refuse (F L : List Entry) : AttachOk F L .refuse :=
   ⟨fun ack he => (by cases he), fun k he => (by cases he)⟩
 
-/-- **C03 (b), partial** the attach decision of `truncateFollowerIfNeeded` (as found in the tree: facts)
+/-- **C03 (b), partial, general form** (`eh` = the head of a prefix of the leader's log: the leader's head
+    when it was elected) the attach decision of `truncateFollowerIfNeeded` (as found in the tree: facts)
     makes the follower's log compatible with the leader's and starts the cursor at an offset up to which the
     two logs are equal — given that both logs are cut from the per-term logs (`Conforms`, the log-matching
     property), that the reported head is the follower's true head (C04) and `eh` the leader's, and (`hcase`)
     that the entry `getHighestEntryOfTerm` finds is of the follower's head term or does not exist. Without
     `hcase` the statement is false: D-44 below. -/
-theorem C03_attach_compatible_partial (G : Int → List Entry) (L F : List Entry)
+theorem C03_attach_compatible_general (G : Int → List Entry) (L F : List Entry) (m : Nat)
     (hL : Conforms G L) (hF : Conforms G F) (hnF : TermsNonneg F)
-    (hcase : (highestOfTerm L (headOf F).1).1 = (headOf F).1 ∨ highestOfTerm L (headOf F).1 = (-1, -1)) :
-    AttachOk F L (plan Cfg.good L (headOf F) (headOf L)) := by
+    (hcase : (headOf F).1 = (headOf (L.take m)).1 ∧ (headOf F).2 ≤ (headOf (L.take m)).2 ∨
+      (highestOfTerm L (headOf F).1).1 = (headOf F).1 ∨ highestOfTerm L (headOf F).1 = (-1, -1)) :
+    AttachOk F L (plan Cfg.good L (headOf F) (headOf (L.take m))) := by
   have hemptyT : ∀ X : List Entry, Compat [] X ∧ Acked [] X (-1) := fun X =>
     ⟨by simp [Compat, Agree], ⟨by omega, by simp, by simp, by simp [Agree]⟩⟩
+  have hB : Conforms G (L.take m) := conforms_take hL m
   by_cases hFe : F = []
   · -- an empty follower: attach at -1 or truncate to nothing
     subst hFe
     have hempty := hemptyT L
     refine ⟨fun ack he => ?_, fun k _ => ?_⟩
-    · have := plan_attach_ack Cfg.good L (headOf []) (headOf L) ack he
+    · have := plan_attach_ack Cfg.good L (headOf []) (headOf (L.take m)) ack he
       have h1 : ack = -1 := by rw [this]; rfl
       subst h1
       exact ⟨by simp, hempty⟩
@@ -250,30 +323,39 @@ theorem C03_attach_compatible_partial (G : Int → List Entry) (L F : List Entry
     unfold plan
     rw [hhF] at hcase ⊢
     simp only [] at hcase ⊢
-    by_cases h1 : ef.term = (headOf L).1 ∧ (F.length : Int) - 1 ≤ (headOf L).2
-    · -- same term as the leader's head, not longer
+    by_cases h1 : ef.term = (headOf (L.take m)).1 ∧ (F.length : Int) - 1 ≤ (headOf (L.take m)).2
+    · -- same term as the leader's election head, not longer
       rw [if_pos h1]
       obtain ⟨h1a, h1b⟩ := h1
-      have hLe : L ≠ [] := by
-        intro hl; subst hl; simp [headOf_nil] at h1a; omega
-      obtain ⟨el, hel, hhL⟩ := headOf_ne_nil L hLe
+      have hBe : L.take m ≠ [] := by
+        intro hl; rw [hl] at h1a; simp [headOf_nil] at h1a; omega
+      obtain ⟨el, hel, hhL⟩ := headOf_ne_nil (L.take m) hBe
       rw [hhL] at h1a h1b
       simp only [] at h1a h1b
-      have hLG := conforms_last hL el hel hLe
-      have hle : F.length ≤ L.length := by omega
-      have hpre : F = L.take F.length := by
+      have hLG := conforms_last hB el hel hBe
+      have hle : F.length ≤ (L.take m).length := by omega
+      have hpre0 : F = (L.take m).take F.length := by
         rw [h1a] at hFG
-        exact take_of_both (G el.term) F L F.length L.length hFG (by rw [← hLG]; simp) hle
-      exact attachOk_attach F L (compat_acked_of_prefix F L hpre hle)
+        exact take_of_both (G el.term) F (L.take m) F.length (L.take m).length hFG (by rw [← hLG, List.take_length]) hle
+      have hlm : (L.take m).length ≤ m ∧ (L.take m).length ≤ L.length := by
+        rw [List.length_take]; omega
+      have hpre : F = L.take F.length := by
+        rw [List.take_take, Nat.min_eq_left (by omega)] at hpre0
+        exact hpre0
+      exact attachOk_attach F L (compat_acked_of_prefix F L hpre (by omega))
     · rw [if_neg h1]
-      by_cases h2 : ef.term > (headOf L).1
+      have hcase : (highestOfTerm L ef.term).1 = ef.term ∨ highestOfTerm L ef.term = (-1, -1) := by
+        rcases hcase with h | h
+        · exact absurd h h1
+        · exact h
+      by_cases h2 : ef.term > (headOf (L.take m)).1
       · rw [if_pos h2]; exact attachOk_refuse F L
       · rw [if_neg h2]
         rcases highestOfTerm_spec L ef.term with hnone | ⟨k, e, hk, hke, _⟩
         · -- the leader has no entry of that term: truncate to nothing
           rw [hnone]
           simp only []
-          have hne : ¬ (ef.term = -1 ∧ (F.length : Int) - 1 ≤ if Cfg.good.truncCmpOk = true then -1 else (headOf L).2) := by
+          have hne : ¬ (ef.term = -1 ∧ (F.length : Int) - 1 ≤ if Cfg.good.truncCmpOk = true then -1 else (headOf (L.take m)).2) := by
             intro h; omega
           rw [if_neg hne]
           apply attachOk_truncate
@@ -318,6 +400,15 @@ theorem C03_attach_compatible_partial (G : Int → List Entry) (L F : List Entry
               exact this
             have hlen : (F.take (k + 1)).length ≤ L.length := by simp; omega
             exact compat_acked_of_prefix _ L hF' hlen
+
+/-- **C03 (b), partial** the attach decision at election time (`eh` = the leader's head) -/
+theorem C03_attach_compatible_partial (G : Int → List Entry) (L F : List Entry)
+    (hL : Conforms G L) (hF : Conforms G F) (hnF : TermsNonneg F)
+    (hcase : (highestOfTerm L (headOf F).1).1 = (headOf F).1 ∨ highestOfTerm L (headOf F).1 = (-1, -1)) :
+    AttachOk F L (plan Cfg.good L (headOf F) (headOf L)) := by
+  have := C03_attach_compatible_general G L F L.length hL hF hnF (.inr hcase)
+  rw [List.take_length] at this
+  exact this
 
 /-- **known finding D-44, the decision**: the leader holds no entry of the follower's head term (2) but
     entries of a lower term at higher offsets; `getHighestEntryOfTerm` answers with its last entry of term
